@@ -74,6 +74,16 @@ def pin_gen(name, obs, checks, qmod, **kw):
     return j
 
 
+def mate_gen(name, obs, checks, **kw):
+    """Mode C: TLC-enumerated three- and four-piece endings (Gen_Mate.tla): mates, stalemates, checks, clock 99/100."""
+    j = {"type": "gen", "name": name, "gen_spec": "Gen_Mate", "driver": "board", "spec": "Trace_Board", "checks": checks,
+         "args": {"common": {"obs": ",".join(obs), "gen-play": "none"}},
+         "params": {"quick": {"gencfg": {"amod": 64, "arem": 0, "bmod": 16, "brem": 0, "cmod": 64, "crem": 0, "mod": 4, "rem": 0}, "workers": 8},
+                    "thorough": {"gencfg": {"amod": 8, "arem": 0, "bmod": 4, "brem": 0, "cmod": 16, "crem": 0, "mod": 4, "rem": 0}, "workers": 16, "xmx": "10g", "timeout": 3600}}}
+    j.update(kw)
+    return j
+
+
 def board_job(name, obs, checks, q, t, variant="release", extra_common=None, **kw):
     common = {"obs": ",".join(obs)}
     if extra_common:
@@ -153,6 +163,7 @@ PROPS = {
         "rule": "status() on every visited state; histories include clock setters (99, 100), mates and stalemates from curated roots",
         "assumptions": BOARD_ASSUME,
         "jobs": [
+            mate_gen("endings", ["status"], ["C12"], seed_offset=3),
             chess_model("model-status", ["StatusOK"], [], dict(MCQ, setters=1), dict(MCT, setters=1)),
             board_job("status", ["status"], ["C12"], {"histories": 900, "subtrees": 80, "deep": 2}, {"histories": 60000, "subtrees": 200, "deep": 40}, sample_kinds=["status", "sethmc"]),
         ],
